@@ -241,7 +241,19 @@ static void exec_one(void)
 	allocs0 = env_lib_allocs_live;
 	iv_init();
 	R0.name = "R0"; RD.name = "RD";
-	mk_raw(&R0);
+	if (mc_choose(2, MC_CONFIG, "register-churn")) {
+		/* other raw events come and go around R0 in a non-LIFO order (the poll back end moves table entries) */
+		static struct raw XA, XB;
+		XA.name = "XA"; XB.name = "XB";
+		mk_raw(&XA);
+		mk_raw(&XB);
+		rm_raw(&XA);
+		mk_raw(&R0);
+		rm_raw(&XB);
+		mc_obs("O:churn");
+	} else {
+		mk_raw(&R0);
+	}
 	mk_raw(&RD);
 	if (backing < 2 && mc_choose(2, MC_CONFIG, "later-register-fails")) {
 		/* a later registration hits a transient EMFILE: it must fail cleanly and leave the others working */
